@@ -38,6 +38,7 @@ from common import enc
 PID = "C17"
 FLAVOR = setupsim.FLAVOR
 NPROC = 16
+IMPLICIT = "implicitProducts"
 
 
 class OutOfGrammar(Exception):
@@ -179,7 +180,7 @@ def gen_case(rng):
         topv = rng.choice(sorted(world["products"][top]))
     lines = list(world["products"][top][topv])
     # a few extra forms on the top table: relative versions, an unknown product, a second mention
-    others = [n for n in names if n != top]
+    others = [n for n in names if n < top]            # lower products only: the graph stays acyclic
     if others and rng.random() < 0.35:
         d = rng.choice(others)
         form = rng.choice(["%s >= 1.0", "%s 2.0 [>= 1.0 || == 0.5]", "%s -j 1.0", "%s", "%s [>= 2.0]", "%s 1.0 junk"])
@@ -400,6 +401,14 @@ def strip_comment(ln):
     return re.sub(r"\s+", " ", re.sub(r"\s*#.*$", "", ln).strip())
 
 
+def constraint(c):
+    """(explicit version, expression) of a classified setup line; a relative version is an expression"""
+    _, _opt, _name, _flags, version, rest, logical, _orig = c
+    if version is not None and re.search(r"<=?|>=?|==", version):
+        return None, " ".join([version] + rest)
+    return version, logical
+
+
 def oracle(case, res):
     """the property's clauses on the real outputs; yields (kind, expected, observed, what)"""
     b = res["build"]
@@ -410,7 +419,12 @@ def oracle(case, res):
         return
     top, topv = case["top"], case["topv"]
     if "raise" in x:
-        if conflict_free and not case["plist"]:
+        # a required line whose product is not set up (it sits in a block that was inactive at build time) makes the
+        # expansion refuse, which the property does not forbid; an abort although every required line's product is
+        # set up means that no table reproducing this conflict-free build can be written at all
+        lines_ok = all(c[1] or c[2] in built or c[2] == top
+                       for c in (classify(ln) for ln in case["world"]["products"][top][topv] if is_setup_line(ln)))
+        if conflict_free and not case["plist"] and lines_ok:
             yield ("expansion-aborts", "an expanded table", x,
                    "the build of %s %s succeeded without conflicts (%s) but expandTableFile raised %s" %
                    (top, topv, built, x.get("msg")))
@@ -457,16 +471,15 @@ def oracle(case, res):
             if (c[1], c[2], c[3]) != (opt, name, flags):
                 yield ("inexact", w[7], g, "command, product or flags changed")
                 continue
-            expr = logical
-            if version is not None and re.search(r"<=?|>=?|==", version):
-                expr = " ".join([version] + rest)
-                version = None
-            if expr and c[6] != expr:
+            version, expr = constraint(w)
+            gversion, gexpr = constraint(c)
+            if expr and gexpr != expr:
                 yield ("inexact", w[7], g, "the original expression [%s] is not carried" % expr)
-            if version and name not in case["plist"] and c[4] != version:
+            if version and name not in case["plist"] and gversion != version:
                 yield ("inexact", w[7], g, "the original version %s is not carried" % version)
-            if c[4] is not None and c[4] not in (version, case["plist"].get(name), built.get(name)):
-                yield ("inexact", w[7], g, "the rewritten line names version %s, neither the original one nor the set-up one" % c[4])
+            if gversion is not None and gversion not in (version, case["plist"].get(name), built.get(name)):
+                yield ("inexact", w[7], g, "the rewritten line names version %s, neither the original one nor the "
+                       "set-up one" % gversion)
     # (4) exact mode reproduces the build
     r = res.get("replay")
     if r is not None and conflict_free and not case["plist"]:
@@ -499,7 +512,8 @@ def expand_line(case, res):
 def expand_result(line):
     f = line.split("\t")
     if f[0] == "ok":
-        return {"text": [re.sub(r"\s+", " ", common.dec(x).strip()) for x in (f[1].split("|") if len(f) > 1 and f[1] else [])]}
+        txt = ["" if x == "%" else common.dec(x) for x in (f[1].split("|") if len(f) > 1 and f[1] else [])]
+        return {"text": norm_text("\n".join(txt))}
     if f[0] == "err":
         return {"raise": f[1]}
     return {"driver": line}
@@ -515,12 +529,19 @@ def forced_decisions(res, top, topv):
         if m:
             pinned.setdefault(m.group(2), []).append(m.group(3))
     ds = [topv]
+    leak = []
     for a in res["parsed1"]["%s %s" % (top, topv)]["actions"]:
         if a.startswith("S,"):
-            n = common.dec(a.split(",")[2])
+            f = a.split(",")
+            n = common.dec(f[2])
             vs = pinned.get(n)
-            ds.append(vs.pop(0) if vs else None)
-    return ds
+            v = vs.pop(0) if vs else None
+            if v is None and n != IMPLICIT or f[3] != "1" and n != IMPLICIT:
+                leak.append(n)          # exact mode runs a setup line that is not a pin
+            if v is not None and ("%s %s" % (n, v)) not in res["parsed1"]:
+                return None, leak       # a productList version that is not declared: nothing to force
+            ds.append(v)
+    return (None if leak else ds), leak
 
 
 def evaluate(ctx, cases, results):
@@ -543,7 +564,14 @@ def evaluate(ctx, cases, results):
             except OutOfGrammar:
                 ctx.bump("out-of-grammar")
             if "replay" in res:
-                ds = forced_decisions(res, c["top"], c["topv"])
+                ds, leak = forced_decisions(res, c["top"], c["topv"])
+                if leak:
+                    ctx.fail("exact-view-leak", shrink_view(c, res), expected="only the pins of the exact block",
+                             observed=res["parsed1"]["%s %s" % (c["top"], c["topv"])]["actions"],
+                             what="read in exact mode, the expanded table runs setup lines that are not pins: %s" % leak)
+                if ds is None:
+                    ctx.bump("replay-with-real-decisions")
+                    ds = res["replay"]["decisions"]
                 rec = {"request": {"name": c["top"], "fwd": True}, "before": res["base"], "decisions": ds,
                        "after": res["replay"]["after"], "aliases": res["replay"]["aliases"], "ok": res["replay"]["ok"],
                        "outcome": res["replay"]["outcome"]}
